@@ -400,16 +400,17 @@ impl WaitForGraph {
             .as_millis() as u64;
 
         {
+            // Forward and reverse index change in ONE critical section (lock order:
+            // edges, then reverse_edges). Updating them one after the other lets a
+            // concurrent remove_transaction run in between and leave a forward edge
+            // that no reverse entry points to, which later removals never find.
             let mut edges = self.edges.write();
+            let mut reverse = self.reverse_edges.write();
             let waiter_edges = edges.entry(waiter_tx_id).or_default();
             if self.max_edges_per_tx > 0 && waiter_edges.len() >= self.max_edges_per_tx {
                 return;
             }
             waiter_edges.insert(holder_tx_id);
-        }
-
-        {
-            let mut reverse = self.reverse_edges.write();
             reverse
                 .entry(holder_tx_id)
                 .or_default()
@@ -429,34 +430,27 @@ impl WaitForGraph {
 
     /// Remove all wait edges for a transaction (when it commits/aborts).
     pub fn remove_transaction(&self, tx_id: u64) {
-        // Remove outgoing edges
-        let outgoing = {
+        {
+            // One critical section over both indices (lock order: edges, then
+            // reverse_edges), see add_wait.
             let mut edges = self.edges.write();
-            edges.remove(&tx_id)
-        };
-
-        // Update reverse edges for removed outgoing edges
-        if let Some(holders) = outgoing {
             let mut reverse = self.reverse_edges.write();
-            for holder in holders {
-                if let Some(waiters) = reverse.get_mut(&holder) {
-                    waiters.remove(&tx_id);
+
+            // Remove outgoing edges
+            if let Some(holders) = edges.remove(&tx_id) {
+                for holder in holders {
+                    if let Some(waiters) = reverse.get_mut(&holder) {
+                        waiters.remove(&tx_id);
+                    }
                 }
             }
-        }
 
-        // Remove incoming edges (other transactions waiting for this one)
-        let incoming = {
-            let mut reverse = self.reverse_edges.write();
-            reverse.remove(&tx_id)
-        };
-
-        // Update forward edges for removed incoming edges
-        if let Some(waiters) = incoming {
-            let mut edges = self.edges.write();
-            for waiter in waiters {
-                if let Some(holders) = edges.get_mut(&waiter) {
-                    holders.remove(&tx_id);
+            // Remove incoming edges (other transactions waiting for this one)
+            if let Some(waiters) = reverse.remove(&tx_id) {
+                for waiter in waiters {
+                    if let Some(holders) = edges.get_mut(&waiter) {
+                        holders.remove(&tx_id);
+                    }
                 }
             }
         }
@@ -469,25 +463,20 @@ impl WaitForGraph {
     /// Remove a specific wait edge.
     #[allow(clippy::significant_drop_tightening)] // Lock scopes are already minimal blocks
     pub fn remove_wait(&self, waiter_tx_id: u64, holder_tx_id: u64) {
-        {
-            let mut edges = self.edges.write();
-            if let Some(holders) = edges.get_mut(&waiter_tx_id) {
-                holders.remove(&holder_tx_id);
-                if holders.is_empty() {
-                    edges.remove(&waiter_tx_id);
-                    // Also remove wait_started since not waiting anymore
-                    self.wait_started.write().remove(&waiter_tx_id);
-                }
+        let mut edges = self.edges.write();
+        let mut reverse = self.reverse_edges.write();
+        if let Some(holders) = edges.get_mut(&waiter_tx_id) {
+            holders.remove(&holder_tx_id);
+            if holders.is_empty() {
+                edges.remove(&waiter_tx_id);
+                // Also remove wait_started since not waiting anymore
+                self.wait_started.write().remove(&waiter_tx_id);
             }
         }
-
-        {
-            let mut reverse = self.reverse_edges.write();
-            if let Some(waiters) = reverse.get_mut(&holder_tx_id) {
-                waiters.remove(&waiter_tx_id);
-                if waiters.is_empty() {
-                    reverse.remove(&holder_tx_id);
-                }
+        if let Some(waiters) = reverse.get_mut(&holder_tx_id) {
+            waiters.remove(&waiter_tx_id);
+            if waiters.is_empty() {
+                reverse.remove(&holder_tx_id);
             }
         }
     }
